@@ -90,6 +90,8 @@ def make_classes(rec, spec):
 
         def shutdownModule(self):
             rec('shutdown', self.name)
+            if self.flags.get(self.name, {}).get('shutdown_fails'):
+                raise RuntimeError(f'{self.name} fails in shutdownModule')
             super().shutdownModule()
 
         def write_w(self, value):
@@ -448,6 +450,20 @@ def check(ctx, spec):
                 return
     ctx.ok('ready-after-first-round')
     # shutdown: pollers stopped first, every module exactly once, users before the modules they are attached to
+    failing_ = [m['name'] for m in spec['mods'] if m.get('shutdown_fails') and m.get('cls', 'Base') not in ('Other', 'Pin')]
+    if failing_:
+        # a module failing in its own shutdown: the others are shut down nevertheless, each exactly once
+        done_ = [e[1] for e in events if e[0] == 'shutdown']
+        expected_ = [m['name'] for m in spec['mods'] if m.get('cls', 'Base') != 'Other']
+        missing_ = [n for n in expected_ if n not in done_]
+        if missing_:
+            ctx.finding('shutdown-of-other-modules-skipped-after-a-failing-one', spec, f'{missing_!r} never shut down; done {done_!r}')
+            return
+        if len(set(done_)) != len(done_):
+            ctx.finding('shutdown-twice', spec, repr(done_))
+            return
+        ctx.ok('shutdown-continues-after-a-failing-module')
+        return
     for e in kinds('shutdown-exception'):
         ctx.finding('shutdown-raised', spec, f'shutdown_modules raised {e[1]}; shut down so far {[x[1] for x in events if x[0] == "shutdown"]}')
         return
@@ -527,6 +543,7 @@ def gen_spec(draw):
             m['fail'] = draw(st.sampled_from([None] * 9 + ['early', 'init']))
             m['slow'] = draw(st.integers(0, 14)) == 0 and cls != 'NoPoll'
             m['unexported'] = draw(st.integers(0, 5)) == 0
+            m['shutdown_fails'] = draw(st.integers(0, 11)) == 0
             if cls in ('WithIO', 'WithIONP'):
                 m['uri'] = draw(st.sampled_from(['tcp://sharedhost:1', 'tcp://sharedhost:1', 'tcp://otherhost:2']))
         mods.append(m)
@@ -550,6 +567,12 @@ def fixed_specs():
                 yield {'kind': 'node', 'mods': [dict(m, touch='early') for m in mods if m['name'] != 'dev2'] + [dict(base[2], dep=None)]}
     for touch in ('early', 'start'):
         yield {'kind': 'node', 'mods': [dict(base[0], touch=touch), dict(base[1])]}
+    # an attachment demanding a class, fixed by a bare value in a subclass ('dep_by': 'class'), pointing to a module of another class
+    for order in ([0, 1], [1, 0]):
+        mods = [{'name': 'user', 'cls': 'Strict', 'dep': 'wrong', 'dep_by': 'class', 'touch': 'init'}, {'name': 'wrong', 'cls': 'Other'}]
+        yield {'kind': 'node', 'mods': [mods[i] for i in order]}
+        mods = [{'name': 'user', 'cls': 'Strict', 'dep': 'right', 'dep_by': 'class', 'touch': 'init'}, {'name': 'right', 'cls': 'Base'}]
+        yield {'kind': 'node', 'mods': [mods[i] for i in order]}
     # modules on a communicator which is not polled itself: with and without configured start values
     for write in (None, 5):
         yield {'kind': 'node', 'mods': [{'name': 'dev', 'cls': 'WithIONP', 'uri': 'tcp://sharedhost:1', 'touch': 'init', 'write': write},
